@@ -170,18 +170,26 @@ fn inline_type<'a>(input: &mut &'a [u8]) -> ModalResult<Type<'a>, InputError<&'a
     if !input.starts_with(b"(") {
         return Err(ErrMode::Backtrack(ParserError::from_input(input)));
     }
-    if let Some(pos) = input.iter().position(|&b| b == b')') {
-        let content = &input[1..pos]; // Skip opening paren
-
-        // An empty list is a struct without fields; an enum needs at least one variant.
-        if content.contains(&b':') || content.iter().all(u8::is_ascii_whitespace) {
-            struct_type(input)
-        } else {
-            enum_type(input)
+    // Scan up to the closing paren, skipping comments: their text is not part of the type.
+    let (mut in_comment, mut has_colon, mut is_blank) = (false, false, true);
+    for &b in &input[1..] {
+        match b {
+            b'\n' | b'\r' => in_comment = false,
+            _ if in_comment => {}
+            b'#' => in_comment = true,
+            b')' => {
+                // An empty list is a struct without fields; an enum needs at least one variant.
+                return if has_colon || is_blank {
+                    struct_type(input)
+                } else {
+                    enum_type(input)
+                };
+            }
+            b':' => has_colon = true,
+            _ => is_blank &= b.is_ascii_whitespace(),
         }
-    } else {
-        Err(ErrMode::Backtrack(ParserError::from_input(input)))
     }
+    Err(ErrMode::Backtrack(ParserError::from_input(input)))
 }
 
 /// Parse an element type (primitive, custom, or inline).
